@@ -529,6 +529,37 @@ class Scripts:
                 self.emit('irq')
                 self.emit('#= idle')
 
+    def lora_race(self, n):
+        """C07: a chip-side event raised between any two SPI transfers of a running LoRa handler
+        invocation: a second event of the same kind only after the acknowledgement write
+        (transfer index >= 2), an event of a different kind at any boundary"""
+        r = self.rnd
+        for _ in range(n):
+            self.begin('lorarace')
+            self.prologue(LORA, rand_chip=r.random() < 0.5)
+            self.emit('env chip l 0x24 0')
+            fl = [r.randint(137000000, 1020000000) for _ in range(r.randint(1, 4))]
+            self.emit('lora_set_frequency_hopping 5 %d %s' % (len(fl), ','.join(map(str, fl))))
+            self.emit('lora_set_implicit_header NULL')
+            self.emit('set_opmod 5 0x80')
+            for _ in range(r.randint(2, 6)):
+                a = self.api.bytes_hex(r.randint(1, 40))
+                self.emit('env lorarx %d 0 %s' % (r.randint(0, 255), a))
+                self.emit('#= mark')
+                if r.random() < 0.5:
+                    k = r.randint(2, 8)
+                    b = self.api.bytes_hex(r.randint(1, 40))
+                    self.emit('irq @%d lorarx %d 0 %s' % (k, r.randint(0, 255), b))
+                    self.emit('irq')
+                    self.emit('irq')
+                    self.emit('#= race 2 0')
+                else:
+                    k = r.randint(0, 8)
+                    self.emit('irq @%d loraflags 2' % k)
+                    self.emit('irq')
+                    self.emit('irq')
+                    self.emit('#= race 1 %d' % (0 if k == 0 else 1))
+
     def hop(self, n):
         r = self.rnd
         for _ in range(n):
